@@ -134,6 +134,14 @@ func (p *FloatingIPPlugin) allocateIP(key string, nodeName string, pod *corev1.P
 		}
 	}
 	if len(unallocatedIPRange) > 0 || len(ipInfos) == 0 {
+		if poolName := constant.GetPool(pod.Annotations); poolName != "" {
+			if pool, err := p.PoolLister.Pools("kube-system").Get(poolName); err == nil {
+				// ips of a sized pool are allocated during filter under the pool lock, allocating here would
+				// bypass the size limit
+				return nil, fmt.Errorf("no ip allocated for %s of pool %s (size %d) during filter, wait for rescheduling",
+					key, pool.Name, pool.Size)
+			}
+		}
 		subnet, err := p.queryNodeSubnet(nodeName)
 		if err != nil {
 			return nil, err
